@@ -40,6 +40,8 @@ pub static SPEC: Spec = Spec {
         "fault:create_proof:tree.read",
         "fault:create_proof:data.read",
         "fault:build:oplog.write",
+        "fault:replica-reopen:oplog.read",
+        "fault:replica-reopen:tree.read",
     ],
     rule: "a case = one history; for EVERY storage-operation index k of the clean run (reads and length queries included) the history is re-run on fresh storage with exactly operation k failing (not applied, IO error); the public call in progress must return Err (never Ok, never panic); then the instance is dropped, storage reopened with faults off, and the observation must equal the model before or after that call; the rest of the history must then satisfy the C01 oracle after every op; replica variant: faults in the replica while applying honest proofs and in the writer while creating them; evaluations = (history, k) pairs",
     assumptions: &[
@@ -329,11 +331,35 @@ fn replica_faults(ctx: &mut Ctx, id: u64, r: &mut Rng) {
                     }
                 }
             }
+            // the replica closes and reopens (reads of the oplog, tree roots and bitfield may fail)
+            pair.replica.core = None;
+            match pair.replica.reopen() {
+                Ok(()) => {
+                    if let Some(d) = pair.replica.world.lock().unwrap().failed.clone() {
+                        return Err((format!("fault-swallowed:reopen:{}.{}", STORE_NAMES[d.store], d.kind), "replica open(true) returned Ok although a storage operation failed".into()));
+                    }
+                }
+                Err(f) => {
+                    let Some(d) = pair.replica.world.lock().unwrap().failed.clone() else {
+                        return Err((format!("spurious:{}", f.sig), f.detail));
+                    };
+                    ctx.count(&fault_name("replica-reopen", &d));
+                    if f.sig.contains("panic") {
+                        return Err((format!("panic-on-fault:{}", f.sig), f.detail));
+                    }
+                    pair.replica.world.lock().unwrap().fail_at = None;
+                    pair.replica.reopen().map_err(|fl| (format!("after-replica-reopen-fault@{}.{}:{}", STORE_NAMES[d.store], d.kind, fl.sig), fl.detail))?;
+                    pair.replica.check(CMP_HAS, 64, "replica after failed reopen").map_err(|fl| (format!("after-replica-reopen-fault:{}", fl.sig), fl.detail))?;
+                    pair.complete().map_err(|fl| (format!("after-fault:{}", fl.sig), fl.detail))?;
+                    return Ok((0, 0));
+                }
+            }
         }
         let a = pair.replica.world.lock().unwrap().op_counter - base_r;
         let b = pair.writer.world.lock().unwrap().op_counter - base_w;
         Ok((a, b))
     };
+    let _ = &run;
     let (nr, nw) = match run(ctx, 0, None) {
         Ok(x) => x,
         Err((sig, detail)) => {
